@@ -113,7 +113,7 @@ func genC18(tier string, r *Rng, emit func(Case)) {
 	tri := func(prop string) func(Case) {
 		return func(c Case) {
 			switch c.Op {
-			case "Exact", "Pair", "ConcRoots":
+			case "Exact", "ConcRoots":
 				return
 			case "Find":
 				// entry points 7..10 are v3 push iterators (emulated elsewhere): keep the common ones
